@@ -46,7 +46,8 @@ verdict), "G" = generator of an input / fault space, "A" = acceptor used for tra
 |---|---|---|---|---|
 | `fanout` | `Fanout` (I: publisher, joiners, consumer goroutines, closer, stoppers, replacement; named deviations FixWake / FixAttach / FixCount / FixJoin), `FanoutProp` (P), `MCFanout` (invariants, edge classes), `FanoutTrace` (A, API level), `FanoutSteps` (A, step level), `TransportTrace` (A: what real clients of every transport read), `ConvLoop` (I/P: converter goroutine loop vs Close; negative control bare signal), `ConvTrace` (A) | model check + schedule generation + trace validation | `harness/fanout` + `harness/vsched` (goroutines parked at `vhook.At` points, one step at a time) | C01 C02 C03 C04 |
 | `registry` | `Registry` (P: sequential reference model with the statement's clauses as invariants), `RegistRace` (I: two concurrent Regist / GetOrCreate), `RaceTrace` (A) | histories (exhaustive, edge cover, walks), race schedules | `harness/registry` | C05 (and C03's registry leg) |
-| `rtsp` | `RtspSession` (P/I: 20 request kinds x state) | edge cover + walks | `harness/rtspsess` against a live server | C12 |
+| `rtsp` | `RtspSession` (P/I: 20 request kinds x state; `Carrier` = rtsp / wsp) | edge cover + walks | `harness/rtspsess` against a live server over TCP, RTSP-over-WebSocket and a WSP channel pair | C12 |
+| `api` | `MgmtApi` (P: every call of the management API - who may call it, answer, payload, paging, state left behind), `MCMgmtApi` | exhaustive histories of 2 calls, first history per class of call, walks of 25 calls | `harness/api` against the HTTP server | C03 C05 C11 C18 |
 | `wire` | `WriteLock` (I: lock protocol, negative controls NoFrameLock / NoRespLock), `BufferedWrite` (I: the shared write buffer at copy / advance, emit / reset grain; negative control flush outside the lock), `PooledWrite` (I: pooled message buffers of the WebSocket writers; negative controls put-before-write, double put), `WireTrace` (A) | gates at `frame.prefix` / `flush.written` / `ws.write` | `harness/c13`, tcp + websocket | C13 |
 | `auth` | `Auth` (P: reference monitor over users, rights as last saved, tokens), `WspJoin` (I/P: WSP channel ids, INIT / store / JOIN; negative controls unbound JOIN / answer before store) | edge cover | `harness/c11`, nine entry points of a live server | C11 |
 | `pull` | `Pull` (P/I: 1940 camera plans) | plan enumeration | `harness/c20` scripted camera | C20 |
@@ -188,7 +189,10 @@ enumerated; this section only records where the build differs from the design.
   negative controls). Added after the seeds: SDP variants without parameter sets (the good stream then repeats them
   in band), in-band parameter-set faults (truncated at every length, garbage, cut after three bytes), every RTP pad
   count between payload + 1 and beyond the packet, and reporting of a hung driver with the case in progress.
-* **C08, C09** acceptor + case-generator pairs instead of one output automaton; H.265 added to C08.
+* **C08, C09** acceptor + case-generator pairs instead of one output automaton; H.265 added to C08, later every kind of
+  IDR / IRAP picture as key frame (seed C08-6). C09 got a second driver after seeds C09-5 / C09-6: streams through the real
+  HLS segment generator (which batches audio), every segment read back and demultiplexed, parameter sets in the SDP or
+  filled in afterwards, three positions on the time line.
 * **C10** every behaviour is replayed at one of four positions on the source's time line (0, just before the 33-bit TS
   clock wraps, just before 2^63 / 10^9 ticks = 28.5 h, nine days), the state of a stream that has been running that long
   being installed through the verif-only export `VerifStartAt` rather than streamed - which exposed the int64 overflow
@@ -210,11 +214,19 @@ enumerated; this section only records where the build differs from the design.
   rebuild is otherwise never looked at: seed C17-5), and a free-running leg resolves a path beside in-place updates of the
   matched directory route (seed C17-4).
 * **C02** scenario `gopsps1` (parameter sets repeated inside a GOP) added after seed C02-6.
-* **C14** `Wire` became `WireReader` (design model) + `WireCases` / `WireFaults` / `RtspWire`; the dispatcher is reached through a verif-only
+* **C14** (late) the negotiated channel numbers vary per case (seed C14-6) and sixteen goroutines encode and parse back
+  their own messages side by side (seed C14-4: a pooled helper returned too early). `Wire` became `WireReader` (design model) + `WireCases` / `WireFaults` / `RtspWire`; the dispatcher is reached through a verif-only
   export.
 * **C15** `CodecSyntax` became `ParamCases` (branch space) + `ParamProp` (derivations) with bit-exact encoders in
   the harness; the H.265 fixed-rate flag is not judged (no such flag in the standard's VUI).
 * **C16-C19** as designed.
+* **Management API** (not in the original design): `MgmtApi.tla` is a reference model of service/apis.go; its replay is a
+  leg of C03 (administrative delete / stop of one consumer), C05 (listings and counts match the live streams), C11 (who
+  may call what; a refused call changes nothing) and C18 (tables equal the edits applied in order) - a deviation is
+  reported by the check of the property it belongs to.
+* **C10** (late) disk-mode behaviours run beside a neighbour stream in the same directory whose path differs only in where
+  '/' and '_' are (seed C10-5); a free-running leg compares the playlists served while eight pollers are in flight with a
+  reference run without them (seed C10-4).
 * **C20** as designed plus per-step nonces, keep-alive leg, bare-URL route, concurrent first requests.
 '''
 
